@@ -195,7 +195,16 @@ def t_big(which):
 	if which == 0:
 		contigs = [rand_seq(rnd.randrange(5, 60)) + ('ATGAC' + rand_seq(11) if i % 3 == 0 else '') + rand_seq(rnd.randrange(0, 20)) for i in range(3000)]
 	elif which == 1:
-		contigs = [''.join(rand_seq(90) + 'ATGAC' + rand_seq(11) for _ in range(2800))]
+		big = list(''.join(rand_seq(90) + 'ATGAC' + rand_seq(11) for _ in range(2800)))
+		# occurrences (both strands) starting at every offset -17..+1 around the multiples of 2^16 - wherever a block-wise search would cut
+		for m in range(1, len(big) // 65536 + 1):
+			for j, off in enumerate(range(-17, 2)):
+				pos = m * 65536 + off
+				if pos + 16 < len(big) and (m * 19 + j) % 19 == j % 19:
+					motif = ('ATGAC' + rand_seq(11)) if (j + m) % 2 else R.ref_revcomp(('ATGAC' + rand_seq(11)).encode()).decode()
+					if (m - 1) * 19 + j < 19 * 8 and ((m - 1) * 19 + j) % 4 == (m % 4):
+						big[pos:pos + 16] = list(motif)
+		contigs = [''.join(big)]
 	else:
 		contigs = [''.join(rand_seq(180) + ('GTCAT' if j % 2 else 'ATGAC') + rand_seq(15) for j in range(100)) for _ in range(40)]
 	exp = sorted(set().union(*[set(R.ref_signature(11, b'ATGAC', [c.encode()])) for c in contigs]))
